@@ -202,6 +202,9 @@ def gen_case(rng, span=4.0):
             # evaluated - also where 1 + tcr*(temp-20) comes out at or below zero
             args["tcr"] = float("%.3g" % lu(rng, math.log10(0.05), 0.0))
             args["temp"] = float("%.3g" % rng.uniform(0.5, 19.5))
+        elif rng.random() < 0.08:
+            # a coefficient above 1 per degC is a number like any other (the unit is 1/degC - it is not re-read as ppm or per cent)
+            args["tcr"] = float("%.3g" % lu(rng, 0.0, 4.0))
     return {"fn": fn, "args": args, "k": lu(rng, -2, 2)}
 
 
